@@ -442,6 +442,8 @@ def run(ctx):
         dist[k] += 1
         for f in c.get("features") or []:
             feats[f] = feats.get(f, 0) + 1
+        if k == "static-error" and any(f.startswith("corpus:") for f in (c.get("features") or [])):
+            ctx.broken("corpus", "a hand-written corpus program is statically rejected: %s: %s" % (c["features"][0], c.get("static_error")))
         if k == "panic":
             ctx.finding("panic", "host panic while executing a generated program: %s" % c["run"].get("errmsg"), {"src": c["src"], "opts": c["opts"]})
         if k == "timeout":
@@ -755,6 +757,335 @@ while k[0] > 0:
         continue
     trace("top", k[0], q)
 """),
+    ("iterated-list-plus-empty", ALLOFF, """
+def it(c, op, e):
+    n = 0
+    for k in c:
+        trace("in", op, n)
+        if op == 0:
+            c += e
+        elif op == 1:
+            c.extend(e)
+        elif op == 2:
+            c[0] = c[0]
+        elif op == 3:
+            c |= e
+        elif op == 4:
+            c["k"] = c["k"]
+        elif op == 5:
+            c.append(e)
+        n += 1
+    return (n, c)
+def comp(c, e):
+    def m(cc):
+        cc |= e
+        return len(cc)
+    return [m(c) for k in c]
+def fine():
+    ok = []
+    ok += []
+    ok.extend(())
+    d = {"k": 1}
+    d |= {}
+    d |= {"j": 2}
+    for k in [1]:
+        d |= {"i": k}
+        ok += [k]
+    return (ok, d, d | {"k": 3, "m": 4}, {} | {})
+trace(fine())
+trace(it([], 0, [1]), it({}, 3, {"z": 1}))
+trace(it([1, 2], 0, []))
+"""),
+    ("iterated-list-extend-empty", ALLOFF, """
+def it(c, op, e):
+    n = 0
+    for k in c:
+        trace("in", op, n)
+        if op == 0:
+            c += e
+        elif op == 1:
+            c.extend(e)
+        elif op == 2:
+            c[0] = c[0]
+        elif op == 3:
+            c |= e
+        elif op == 4:
+            c["k"] = c["k"]
+        elif op == 5:
+            c.append(e)
+        n += 1
+    return (n, c)
+def comp(c, e):
+    def m(cc):
+        cc |= e
+        return len(cc)
+    return [m(c) for k in c]
+def fine():
+    ok = []
+    ok += []
+    ok.extend(())
+    d = {"k": 1}
+    d |= {}
+    d |= {"j": 2}
+    for k in [1]:
+        d |= {"i": k}
+        ok += [k]
+    return (ok, d, d | {"k": 3, "m": 4}, {} | {})
+trace(fine())
+trace(it([], 0, [1]), it({}, 3, {"z": 1}))
+trace(it([1, 2], 1, ()))
+"""),
+    ("iterated-list-store-same", ALLOFF, """
+def it(c, op, e):
+    n = 0
+    for k in c:
+        trace("in", op, n)
+        if op == 0:
+            c += e
+        elif op == 1:
+            c.extend(e)
+        elif op == 2:
+            c[0] = c[0]
+        elif op == 3:
+            c |= e
+        elif op == 4:
+            c["k"] = c["k"]
+        elif op == 5:
+            c.append(e)
+        n += 1
+    return (n, c)
+def comp(c, e):
+    def m(cc):
+        cc |= e
+        return len(cc)
+    return [m(c) for k in c]
+def fine():
+    ok = []
+    ok += []
+    ok.extend(())
+    d = {"k": 1}
+    d |= {}
+    d |= {"j": 2}
+    for k in [1]:
+        d |= {"i": k}
+        ok += [k]
+    return (ok, d, d | {"k": 3, "m": 4}, {} | {})
+trace(fine())
+trace(it([], 0, [1]), it({}, 3, {"z": 1}))
+trace(it([1, 2], 2, None))
+"""),
+    ("iterated-dict-pipe-empty", ALLOFF, """
+def it(c, op, e):
+    n = 0
+    for k in c:
+        trace("in", op, n)
+        if op == 0:
+            c += e
+        elif op == 1:
+            c.extend(e)
+        elif op == 2:
+            c[0] = c[0]
+        elif op == 3:
+            c |= e
+        elif op == 4:
+            c["k"] = c["k"]
+        elif op == 5:
+            c.append(e)
+        n += 1
+    return (n, c)
+def comp(c, e):
+    def m(cc):
+        cc |= e
+        return len(cc)
+    return [m(c) for k in c]
+def fine():
+    ok = []
+    ok += []
+    ok.extend(())
+    d = {"k": 1}
+    d |= {}
+    d |= {"j": 2}
+    for k in [1]:
+        d |= {"i": k}
+        ok += [k]
+    return (ok, d, d | {"k": 3, "m": 4}, {} | {})
+trace(fine())
+trace(it([], 0, [1]), it({}, 3, {"z": 1}))
+trace(it({"k": 1}, 3, {}))
+"""),
+    ("iterated-dict-pipe-nonempty", ALLOFF, """
+def it(c, op, e):
+    n = 0
+    for k in c:
+        trace("in", op, n)
+        if op == 0:
+            c += e
+        elif op == 1:
+            c.extend(e)
+        elif op == 2:
+            c[0] = c[0]
+        elif op == 3:
+            c |= e
+        elif op == 4:
+            c["k"] = c["k"]
+        elif op == 5:
+            c.append(e)
+        n += 1
+    return (n, c)
+def comp(c, e):
+    def m(cc):
+        cc |= e
+        return len(cc)
+    return [m(c) for k in c]
+def fine():
+    ok = []
+    ok += []
+    ok.extend(())
+    d = {"k": 1}
+    d |= {}
+    d |= {"j": 2}
+    for k in [1]:
+        d |= {"i": k}
+        ok += [k]
+    return (ok, d, d | {"k": 3, "m": 4}, {} | {})
+trace(fine())
+trace(it([], 0, [1]), it({}, 3, {"z": 1}))
+trace(it({"k": 1}, 3, {"z": 2}))
+"""),
+    ("iterated-dict-store-same", ALLOFF, """
+def it(c, op, e):
+    n = 0
+    for k in c:
+        trace("in", op, n)
+        if op == 0:
+            c += e
+        elif op == 1:
+            c.extend(e)
+        elif op == 2:
+            c[0] = c[0]
+        elif op == 3:
+            c |= e
+        elif op == 4:
+            c["k"] = c["k"]
+        elif op == 5:
+            c.append(e)
+        n += 1
+    return (n, c)
+def comp(c, e):
+    def m(cc):
+        cc |= e
+        return len(cc)
+    return [m(c) for k in c]
+def fine():
+    ok = []
+    ok += []
+    ok.extend(())
+    d = {"k": 1}
+    d |= {}
+    d |= {"j": 2}
+    for k in [1]:
+        d |= {"i": k}
+        ok += [k]
+    return (ok, d, d | {"k": 3, "m": 4}, {} | {})
+trace(fine())
+trace(it([], 0, [1]), it({}, 3, {"z": 1}))
+trace(it({"k": 1}, 4, None))
+"""),
+    ("iterated-dict-pipe-empty-in-comprehension", ALLOFF, """
+def it(c, op, e):
+    n = 0
+    for k in c:
+        trace("in", op, n)
+        if op == 0:
+            c += e
+        elif op == 1:
+            c.extend(e)
+        elif op == 2:
+            c[0] = c[0]
+        elif op == 3:
+            c |= e
+        elif op == 4:
+            c["k"] = c["k"]
+        elif op == 5:
+            c.append(e)
+        n += 1
+    return (n, c)
+def comp(c, e):
+    def m(cc):
+        cc |= e
+        return len(cc)
+    return [m(c) for k in c]
+def fine():
+    ok = []
+    ok += []
+    ok.extend(())
+    d = {"k": 1}
+    d |= {}
+    d |= {"j": 2}
+    for k in [1]:
+        d |= {"i": k}
+        ok += [k]
+    return (ok, d, d | {"k": 3, "m": 4}, {} | {})
+trace(fine())
+trace(it([], 0, [1]), it({}, 3, {"z": 1}))
+trace(comp({"k": 1}, {}))
+"""),
+    ("frozen-list-plus-empty", ALLOFF, """
+load("m.star", "fl", "fd")
+trace(fl, fd, len(fl), fd["k"], fl + [3], fd | {"z": 1}, [x for x in fl], 1 in fl, "k" in fd)
+def f(c, e):
+    c += e
+    return c
+trace(f(fl, []))
+"""),
+    ("frozen-list-extend-empty", ALLOFF, """
+load("m.star", "fl", "fd")
+trace(fl, fd, len(fl), fd["k"], fl + [3], fd | {"z": 1}, [x for x in fl], 1 in fl, "k" in fd)
+def f(c, e):
+    c.extend(e)
+    return c
+trace(f(fl, []))
+"""),
+    ("frozen-list-store-same", ALLOFF, """
+load("m.star", "fl", "fd")
+trace(fl, fd, len(fl), fd["k"], fl + [3], fd | {"z": 1}, [x for x in fl], 1 in fl, "k" in fd)
+def f(c, e):
+    c[0] = c[0]
+    return c
+trace(f(fl, None))
+"""),
+    ("frozen-dict-pipe-empty", ALLOFF, """
+load("m.star", "fl", "fd")
+trace(fl, fd, len(fl), fd["k"], fl + [3], fd | {"z": 1}, [x for x in fl], 1 in fl, "k" in fd)
+def f(c, e):
+    c |= e
+    return c
+trace(f(fd, {}))
+"""),
+    ("frozen-dict-pipe-nonempty", ALLOFF, """
+load("m.star", "fl", "fd")
+trace(fl, fd, len(fl), fd["k"], fl + [3], fd | {"z": 1}, [x for x in fl], 1 in fl, "k" in fd)
+def f(c, e):
+    c |= e
+    return c
+trace(f(fd, {"z": 1}))
+"""),
+    ("frozen-dict-store-same", ALLOFF, """
+load("m.star", "fl", "fd")
+trace(fl, fd, len(fl), fd["k"], fl + [3], fd | {"z": 1}, [x for x in fl], 1 in fl, "k" in fd)
+def f(c, e):
+    c["k"] = c["k"]
+    return c
+trace(f(fd, None))
+"""),
+    ("frozen-list-append", ALLOFF, """
+load("m.star", "fl", "fd")
+trace(fl, fd, len(fl), fd["k"], fl + [3], fd | {"z": 1}, [x for x in fl], 1 in fl, "k" in fd)
+def f(c, e):
+    c.append(e)
+    return c
+trace(f(fl, 0))
+"""),
     ("iterators-released-after-loops", ALLOFF, """
 def f(l):
     for x in l:
@@ -1045,6 +1376,17 @@ trace(f(0))
 def g():
     return {[1]: 2}
 trace(g())
+"""),
+    ("sibling-comprehensions-do-not-share-variables", ALLOFF, """
+def f():
+    fs = [lambda: x for x in [1, 2]]
+    ys = [x for x in [10, 20]]
+    zs = {x: 0 for x in [7]}
+    return ([g() for g in fs], ys, zs)
+trace(f())
+gs = [lambda: y for y in [3]]
+hs = [y for y in [4]]
+trace([g() for g in gs], hs)
 """),
     ("dict-displays-and-comprehensions", ALLOFF, """
 def f():
